@@ -61,6 +61,8 @@ func c13Case(r *core.Run, idx int, rng *rand.Rand) {
 	}
 	mustRegister(e.W, d, "appA")
 	mustRegister(e.W, stdSP(1), "appB")
+	// half of the time the storage answers "no record, no error" for an entity it does not know
+	e.W.NilForUnknown = rng.Intn(2) == 0
 
 	l := conformantLogout(rng, d)
 	l.ID = "MKid" + randHex(rng, 6) + legalXMLString(rng, 2)
